@@ -100,8 +100,11 @@ class MasterConvergence(Observer):
             return
         kind = item['kind']
         now = self.sim.now_us
+        # the effects of a cut outlast its heal: a peer whose ticks were missed is declared FAILED up to
+        # inactivity_ticks (+ margin) local ticks later, hence a settle time after every network event
+        settle = int((self.run.config['supvisors'].get('inactivity_ticks', 2) + 3) * 5 * US)
         if kind in ('partition', 'heal', 'clock_jump'):
-            self.global_disturb_us = now
+            self.global_disturb_us = max(self.global_disturb_us, now + settle)
         elif kind == 'slow':
             self.global_disturb_us = now + int(item['d'] * US)
         elif kind in ('crash', 'restart'):
